@@ -284,6 +284,24 @@ def run(prop, tier, seed):
             agg['errors'].extend(r['errors'])
             for k, v in r['known'].items():
                 agg['known'][k] = agg['known'].get(k, 0) + v
+    # ---- determinism sample: the same schedules again under another PYTHONHASHSEED (fresh interpreter)
+    det = {'rerun': 0, 'mismatch': 0}
+    try:
+        z1 = runner.Zygote(REPO)
+        z2 = runner.Zygote(REPO, env={'PYTHONHASHSEED': '12345'})
+        (i0, A0, B0, classes0, _ea, _eb) = pairs[0]
+        for sch in ({'kind': 'single', 'k': 50}, {'kind': 'single', 'k': 777}, {'kind': 'pct', 'seed': 5, 'depth': 3, 'p': 0.001, 'p_hot': 0.02}):
+            d1 = z1.run(job([A0, B0], sch, classes0))['digest']
+            d2 = z2.run(job([A0, B0], sch, classes0))['digest']
+            det['rerun'] += 1
+            if d1 != d2:
+                det['mismatch'] += 1
+        z1.close()
+        z2.close()
+    except runner.HarnessError as e:
+        agg['errors'].append('determinism sample: ' + str(e)[:300])
+    if det['mismatch']:
+        agg['errors'].append('non-deterministic thread schedules: %d of %d digests differ' % (det['mismatch'], det['rerun']))
     # ---- report
     lines = []
     code = 0
@@ -321,6 +339,7 @@ def run(prop, tier, seed):
             'faults_fired': {'sched.preempt': agg['fired'], 'sched.switch': agg['switches']},
             'distinct_interleavings': len(agg['interleavings']),
             'known_findings_hit': agg['known'],
+            'determinism_sample': det,
             'exhaustive': False,
             'exhaustive_note': 'the single-pre-emption family is swept completely for the sampled program pairs in the thorough tier (see program_pairs[*].exhaustive_single_preemption); the set of program pairs is a sample',
             'real_vs_stub': props.REAL_VS_STUB,
